@@ -88,6 +88,15 @@ func ewVals(d ref.DT, n int, vs string) (a, b []interface{}, s interface{}) {
 			b[i] = e[(i*5+3)%len(e)]
 		}
 		s = e[(n+1)%len(e)]
+	case "zmid": // zero divisors at the second and the second-to-last position (positions whose storage offset differs between layouts)
+		for i := 0; i < n; i++ {
+			a[i] = d.Code(i*3 + 6)
+			b[i] = d.Code(i%2 + 1)
+			if i == 1 || i == n-2 {
+				b[i] = d.Code(0)
+			}
+		}
+		s = d.Code(0)
 	case "edge2":
 		e := edgeVals(d)
 		for i := 0; i < n; i++ {
@@ -377,6 +386,11 @@ func ewExec(r *core.Run, c ewCase) (*core.Fail, string) {
 					if ref.Same(got, w.V) || ref.Close(got, w.V) {
 						tag = "[KF:incr-len1-mutates-a]"
 					}
+				} else if w.Refuse && c.op == "Div" && d.IsInteger() {
+					// the same defect with a zero divisor: the kernel's "result" for that element is 0
+					if got := ref.SliceGet(b.Root, b.View.Cell[0]); ref.Same(got, d.Code(0)) {
+						tag = "[KF:incr-len1-mutates-a]"
+					}
 				}
 			}
 			return core.F("operand-changed"+tag, name, "%s (%s, not the destination) changed: %s", name, b.Layout, ch)
@@ -452,17 +466,24 @@ func ewExec(r *core.Run, c ewCase) (*core.Fail, string) {
 	}
 	if anyRefuse {
 		tag := ""
-		if rd, ok := res.(*tensor.Dense); ok && rd != nil && c.op == "Div" && d.IsInteger() && !incr {
+		if rd, ok := res.(*tensor.Dense); ok && rd != nil && c.op == "Div" && d.IsInteger() {
 			// DEFECT model of F-C06-iter-div-zero-silent: on the iterator path the kernels' error is dropped; elements with
-			// a zero divisor are set to 0, all others are correct
+			// a zero divisor are set to 0 (also in an increment destination), all others are correct
 			if got, e := atlas.Logical(rd); e == nil && len(got) == n {
 				match := true
 				for i := range got {
-					if want[i].Refuse {
+					switch {
+					case want[i].Refuse:
 						match = match && ref.Same(got[i], d.Code(0))
-					} else {
+					case incr:
+						ri := ref.Arith("Add", destOld[i], want[i].V)
+						match = match && !ri.Refuse && !ri.Skip && ref.Same(got[i], ri.V)
+					default:
 						match = match && ref.Same(got[i], want[i].V)
 					}
+				}
+				if !match && n == 1 && incr && ref.Same(got[0], destOld[0]) {
+					match = true // one-element operands: nothing is added, no error either
 				}
 				if match {
 					tag = "[KF:iter-div-zero-silent]"
